@@ -303,6 +303,61 @@ def contract_others(ctx):
             ctx.case((mname, bs, D.tobytes()), True)
             ctx.count('contract:' + mname)
             contract(ctx, mname, nodal, sorted({i for (i, j) in nodal if i == j}), S, c)
+    # scale invariance: the rules compare entries of one matrix with each other, so multiplying the matrix by a
+    # power of two (exact in floating point) must not change the result at all -- however small the entries get
+    for name, A in mats[:3]:
+        for fac in (2.0 ** -60, 2.0 ** 40):
+            for mname, f in (('classical/abs', lambda M: strength.classical_strength_of_connection(M, 0.25, norm='abs')),
+                             ('classical/min', lambda M: strength.classical_strength_of_connection(M, 0.25, norm='min')),
+                             ('symmetric', lambda M: strength.symmetric_strength_of_connection(M, 0.25))):
+                c = dict(matrix=name, measure=mname, scaled_by=fac, rows=gen.rows_of(A) if A.shape[0] <= 12 else None)
+                ctx.mark(c)
+                try:
+                    S0 = sp.csr_array(f(A)).toarray()
+                    S1 = sp.csr_array(f(sp.csr_array(A * fac))).toarray()
+                except Exception as e:   # noqa
+                    ctx.fail(mname + '/scaled/raises', repr(e), c)
+                    continue
+                ctx.case(('scaled', mname, name, fac), True)
+                ctx.count('contract:scale-invariance')
+                if not np.array_equal(S0, S1):
+                    ctx.fail(mname + '/not-scale-invariant', 'strength of %g * A differs from strength of A (max diff %.3g)'
+                             % (fac, np.abs(S0 - S1).max()), c)
+    # BSR, block-wise: the documented reduction (largest magnitude / smallest signed entry of each block) followed by
+    # the scalar rule on the nodal matrix -- the scalar rule itself is what the theorems and the bit-exact
+    # correspondence above are about
+    for bs in (2, 3):
+        for rep in range(3 if not ctx.thorough else 12):
+            nb = rng.choice([2, 3, 4])
+            n = nb * bs
+            D = gen.poisson_like(rng, n)
+            if rep % 3 == 1:
+                D = D * np.array([[rng.choice([1.0, 1.0, -0.5]) for _ in range(n)] for _ in range(n)])   # mixed signs
+            Ab = sp.bsr_array(D, blocksize=(bs, bs))
+            blocks = {}
+            for bi in range(len(Ab.indptr) - 1):
+                for k in range(Ab.indptr[bi], Ab.indptr[bi + 1]):
+                    blocks[(bi, int(Ab.indices[k]))] = Ab.data[k]
+            for nrm in ('abs', 'min'):
+                Cn = np.zeros((nb, nb))
+                for (bi, bj), blk in blocks.items():
+                    Cn[bi, bj] = np.abs(blk).max() if nrm == 'abs' else blk.min()
+                rows = [[(j, Cn[i, j]) for j in range(nb) if (i, j) in blocks] for i in range(nb)]
+                Cn_csr = gen.csr_from_rows(nb, rows)
+                for th in (0.0, 0.25, 0.5):
+                    c = dict(matrix=D.tolist(), blocksize=bs, measure='classical/%s/bsr-blockwise' % nrm, theta=th)
+                    ctx.mark(c)
+                    try:
+                        Sb = sp.csr_array(strength.classical_strength_of_connection(Ab, th, block=True, norm=nrm)).toarray()
+                        Sn = sp.csr_array(strength.classical_strength_of_connection(Cn_csr, th, norm=nrm)).toarray()
+                    except Exception as e:   # noqa
+                        ctx.fail('classical/%s/bsr/raises' % nrm, repr(e), c)
+                        continue
+                    ctx.case(('bsr-blockwise', nrm, bs, th, D.tobytes()), True)
+                    ctx.count('contract:classical/%s/bsr-blockwise' % nrm)
+                    if Sb.shape != Sn.shape or not np.array_equal(Sb, Sn):
+                        ctx.fail('classical/%s/bsr/not-the-nodal-rule' % nrm,
+                                 'block-wise strength differs from the scalar rule applied to the reduced nodal matrix', c)
     # complex Hermitian rotation: same patterns as the real matrix
     D = gen.poisson_like(rng, 6)
     u = np.exp(1j * np.array([rng.uniform(0, 6) for _ in range(6)]))
